@@ -132,7 +132,7 @@ def m_recovering(m):
     return getattr(m, 'recovering', False)
 
 
-def h_defer(sp, L=3, K=2, ids=(1, 2), fault=True, procs=1):
+def h_defer(sp, L=3, K=2, ids=(1, 2), fault=True, procs=1, build=False):
     del LOG[:]
     FAULT.update(at=None, count=0, armed=False, fired=False)
     w = World()
@@ -144,6 +144,22 @@ def h_defer(sp, L=3, K=2, ids=(1, 2), fault=True, procs=1):
         FAULT['at'] = sp.int('fault-position')
         sp.assume(FAULT['at'] >= 0)
     n_ops = 6
+    if build:
+        # shape I: a state built through the public API from symbolic choices (reachable by construction)
+        for e in ids:
+            k = sp.choose(len(SETS) + 1, 'build%r' % (e,))
+            if k < len(SETS):
+                comps = [T() for T in SETS[k]]
+                w.create_entity(*comps, entity_id=e)
+                m.ents[e] = {type(c): c for c in comps}
+                sp.note('build create_entity(%s, entity_id=%r)' % (', '.join(T.__name__ for T in SETS[k]), e))
+        for e in ids:
+            if e in m.ents and sp.flag('build-dead%r' % (e,)):
+                w.delete_entity(e)
+                m.dead.add(e)
+                sp.cover('delete-deferred')
+                sp.note('build delete_entity(%r)' % (e,))
+        observe(sp, w, m, ids, 'after build')
 
     def step_ops(step):
         op = sp.choose(n_ops, 'op%d' % step)
@@ -260,8 +276,9 @@ HARNESSES = {
                             'emptied-while-dead', 'immediate-while-dead', 'recovered', 'id-reused']),
 }
 TIERS = {
-    'quick': [('defer', dict(L=3, K=1))],
-    'thorough': [('defer', dict(L=4, K=2)), ('defer', dict(L=5, K=1, ids=(1,), procs=2)),
+    'quick': [('defer', dict(L=3, K=1)),
+              ('defer', dict(L=1, K=1, build=True), dict(required=['delete-deferred', 'frame-deletes', 'frame-failed', 'recovered']))],
+    'thorough': [('defer', dict(L=4, K=2)), ('defer', dict(L=3, K=2, build=True, procs=2)), ('defer', dict(L=5, K=1, ids=(1,), procs=2)),
                  ('defer', dict(L=3, K=3, procs=2))],
 }
 BUDGET_S = {'quick': 150, 'thorough': 1500}
@@ -276,7 +293,7 @@ EXPLANATION = (
 RULE = ('one evaluation = one feasible path (operation sequence x fault position class); non-trivial = contains a '
         'deferred deletion, a frame that deletes, a failed frame, a re-deletion, emptying or immediate deletion of a '
         'marked entity, or re-use of a freed id')
-BOUNDS = {'quick': 'L=3 operations + 1 trailing frame, ids 1,2, classes H, H2(H), N, one processor, one fault',
+BOUNDS = {'quick': 'L=3 operations + 1 trailing frame, ids 1,2, classes H, H2(H), N, one processor, one fault; built state (4 component sets or none per id, dead bits) + L=1 + 1 frame',
           'thorough': 'L=4 + 2 frames; L=5 + 1 frame with one id and two processors; L=3 + 3 frames'}
 ASSUMPTIONS = [
     'delete_entity is only called on entities that own components at that moment ("existed when delete_entity was called")',
